@@ -12,6 +12,8 @@
 -/
 import BumpverVerif.Model.Rewrite
 import BumpverVerif.Proofs.RewriteLemmas
+-- the functions this property's mechanism lives in are TRANSLATED from the Python source on every run (Gen/F_*.lean) and proved equal to the hand model:
+import BumpverVerif.Proofs.Tie_hasOverlap
 namespace BV
 
 /-- the surviving matches never overlap or touch one another -/
